@@ -155,6 +155,20 @@ def run(ctx, rule, entries, *, lossy=False, entry_facts=None, lemmas=None, trust
                 continue
             b = prog.body(p)
             if b.kind == "Closure":
+                ef = eng.closure_facts(p, entry_facts) if rnd == 0 else None
+                if ef:
+                    entry_facts[p] = ef
+                    an = eng.analyze(p, ef)
+                    res[p] = [discharge_one(an, o) for o in per_body[p]]
+                    # a `+= 1` on a &mut-captured counter inside a closure driven by an iterator over an in-memory sequence
+                    for k_, o_ in enumerate(res[p]):
+                        if not o_.ok and o_.ob.kind == "OVF" and o_.ob.sub == "Add" and ef.get("counters"):
+                            m_ = o_.ob.term["msg"]
+                            if m_["b"].get("k") == "const" and m_["b"]["c"].get("int") == "1" and m_["a"].get("k") in ("copy", "move"):
+                                st_ = an.results.get(o_.ob.bb)
+                                if st_ is not None and an.pkey(st_, m_["a"]["place"]) in ef["counters"]:
+                                    res[p][k_] = Outcome(o_.ob, True, "CNT", "counter captured by &mut, incremented once per call of a closure driven by an iterator over an in-memory sequence (< 2^63 calls)")
+                    ctx.note("%s analysed with facts of its captures at the creating call: %s" % (p, ef))
                 continue
             callers = [c for c in cg.callers(p) if c in dyn and c != p]
             if not callers:
